@@ -72,9 +72,9 @@ pub fn check(c: &Case) -> Outcome {
             // a sample time is only known to an ulp: during the initial transient the exact solution
             // moves by kappa*|y|*ulp(t) per ulp of time
             let floor = floor + 8.0 * ulp(c.x0.abs().max(xend.abs())) * kappa * ymax * p.conds;
-            let bound = 50.0 * p.conds * nacc * tolscale + floor;
+            let bound = crate::props::c01::C_BOUND * p.conds * nacc * tolscale + floor;
             if !(emax <= bound) {
-                return Outcome::viol(format!("{}: error {:e} on a stiff linear problem (kappa=1e{:.1}) exceeds 50*cond*naccpt*tolscale + floor = {:e} (naccpt {}, rtol {:e})", name, emax, c.lk, bound, s.naccpt, c.rtol));
+                return Outcome::viol(format!("{}: error {:e} on a stiff linear problem (kappa=1e{:.1}) exceeds C*cond*naccpt*tolscale + floor = {:e} (naccpt {}, rtol {:e})", name, emax, c.lk, bound, s.naccpt, c.rtol));
             }
             // cost independent of the stiffness ratio: same problem at kappa = 1e2
             let p2 = StiffProb::new(&c.spec, 100.0, c.x0, d);
@@ -229,7 +229,7 @@ pub fn run(ctx: &Ctx, known: &[Known]) -> Report {
     let stats = run_generated(ctx, "C14", "gen", &strategy, &check, cases, known);
     Report {
         id: "C14".into(),
-        rule: "cases = stiff linear problems with closed-form solutions in two families (triangular coupling: fast block with rates kappa^u_j, one equal to kappa, driving a slow block, kappa = 1e2..1e10; fully mixed basis K = S diag(kappa^u) S^-1, kappa <= 1e6, rtol >= 1e-6), n = 1..8, initial transients of O(1), both directions (reflected so that the problem stays stable), T = 0.5..12; linear kinetics chains with total-mass conservation (kappa to 1e8); Robertson to T = 10^U[0.5,5]; Van der Pol (mu = 10..1000) on its slow phase; Radau and BDF, rtol 1e-3..1e-9 (BDF 1e-8), analytic or finite-difference Jacobian. Oracle: Success; error vs exact <= 50*cond(S)*naccpt*tolscale + floor; the same problem at kappa and at 1e2: naccpt(kappa) <= 3 naccpt(1e2) + 30, nfev(kappa) <= 4 nfev(1e2) + 200; linear invariants to 1e-11*|w||y|*sqrt(steps) + 64 eps * flux * T (x1000 with the finite-difference Jacobian, which divides the right-hand side's rounding noise by its increment); Radau and BDF agree on Van der Pol. Non-trivial = kappa*T >= 1e4 (an explicit method would need thousands of steps), or a nonlinear problem. Distinct = distinct canonical JSON.".into(),
+        rule: "cases = stiff linear problems with closed-form solutions in two families (triangular coupling: fast block with rates kappa^u_j, one equal to kappa, driving a slow block, kappa = 1e2..1e10; fully mixed basis K = S diag(kappa^u) S^-1, kappa <= 1e6, rtol >= 1e-6), n = 1..8, initial transients of O(1), both directions (reflected so that the problem stays stable), T = 0.5..12; linear kinetics chains with total-mass conservation (kappa to 1e8); Robertson to T = 10^U[0.5,5]; Van der Pol (mu = 10..1000) on its slow phase; Radau and BDF, rtol 1e-3..1e-9 (BDF 1e-8), analytic or finite-difference Jacobian. Oracle: Success; error vs exact <= 100*cond(S)*naccpt*tolscale + floor; the same problem at kappa and at 1e2: naccpt(kappa) <= 3 naccpt(1e2) + 30, nfev(kappa) <= 4 nfev(1e2) + 200; linear invariants to 1e-11*|w||y|*sqrt(steps) + 64 eps * flux * T (x1000 with the finite-difference Jacobian, which divides the right-hand side's rounding noise by its increment); Radau and BDF agree on Van der Pol. Non-trivial = kappa*T >= 1e4 (an explicit method would need thousands of steps), or a nonlinear problem. Distinct = distinct canonical JSON.".into(),
         assumptions: vec![
             "fully mixed basis restricted to kappa <= 1e6 and rtol >= 1e-6: beyond that the rounding noise kappa*eps of the right-hand side itself prevents the slow components from meeting the tolerance (conditioning of the evaluation, not a solver defect)".into(),
             "Van der Pol only on the slow manifold phase T <= 0.5 mu (contractive, so the two methods must agree to tolerance)".into(),
